@@ -372,8 +372,15 @@ impl BuiltInFunctionList {
                         Ok(paths) => {
                             let mut all_files_dirs: Vec<String> = Vec::new();
                             for path in paths {
-                                let file_dir_name =  path.unwrap().file_name().to_str().unwrap().to_string();
-                                all_files_dirs.push(file_dir_name);
+                                let dir_entry = match path {
+                                    Ok(dir_entry) => dir_entry,
+                                    Err(e) => return Err(format!("_রিড-ডাইরেক্টরি(): {}", e.to_string())),
+                                };
+                                match dir_entry.file_name().to_str() {
+                                    Some(file_dir_name) => all_files_dirs.push(file_dir_name.to_string()),
+                                    None => return Err(format!("_রিড-ডাইরেক্টরি(): name is not valid unicode: {}",
+                                                               dir_entry.file_name().to_string_lossy())),
+                                }
                             }
                             return Ok(all_files_dirs);
                         },
